@@ -25,7 +25,8 @@ func VerifC19_TwoCreations() {
 	contentA := []types.Content{{Digest: "digest-a", DigestAlgo: "sha256", URI: "uri", Meta: "meta"}}
 	switch verifChoice("firstShape", 4) {
 	case 3: // fields with leading / trailing white space and mixed case: stored and returned byte for byte
-		contentA = []types.Content{{Digest: "Digest-A\n", DigestAlgo: " SHA256", URI: "uri\t", Meta: " meta "}, {Digest: " digest-a", DigestAlgo: "sha256", URI: "", Meta: ""}}
+		contentA = []types.Content{{Digest: "Digest-A\n", DigestAlgo: " SHA256", URI: "uri\t", Meta: " meta "}, {Digest: " digest-a", DigestAlgo: "sha256", URI: "", Meta: ""},
+			{Digest: "0D8736D5AbCdEf", DigestAlgo: "SHA256", URI: "HTTP://Example/A", Meta: "0xDEADBEEF"}} // well-formed hex in upper and mixed case
 	case 1: // the same digest published at a second location
 		contentA = append(contentA, types.Content{Digest: "digest-a", DigestAlgo: "sha256", URI: "mirror", Meta: "meta"})
 	case 2: // a byte-identical entry repeated, and a different one
